@@ -416,4 +416,10 @@ func init() {
 			return p
 		}})
 	plans["C16"] = []string{"c16-usage", "c16-overlap"}
+	// c16-usage under C07: "a UID the server currently authorises" - a user deleted
+	// or expired (or out of credit) whose session is still up two usage uploads
+	// later is a user whose further connections (same UID and session id) are
+	// still answered as Cloak: GetSession hands out the standing session without
+	// asking the manager again. The periodic upload is the only re-authorisation.
+	plans["C07"] = append(plans["C07"], "c16-usage")
 }
